@@ -428,7 +428,8 @@ pub fn check_tree(tape: &[u16], rc: &mut RCase) -> Result<(), Failure> {
 /// The resolver is one particular schedule (fees, compiler built-ins, reduce, selection, reduce, compile,
 /// repeated with the fee fed back). Its stages are public, so the same rounds are replayed by hand: when
 /// three hand-made rounds succeed, `resolve_tx` - whose first three rounds are the same computation - may
-/// only fail later and only in selection; when `resolve_tx` succeeds, the first hand-made round does too.
+/// only fail later and only in selection; when `resolve_tx` succeeds, the first hand-made round does too,
+/// selection apart (ties between candidates are broken by hash-set order, which differs between two runs).
 pub fn check_resolver(tape: &[u16], rc: &mut RCase) -> Result<(), Failure> {
     use crate::rgen::{self, ROpts};
     use crate::store::MemStore;
@@ -452,6 +453,7 @@ pub fn check_resolver(tape: &[u16], rc: &mut RCase) -> Result<(), Failure> {
     let mut compiler = pipeline::compiler(&cfg);
     let mut fee = 0u64;
     let mut staged: Vec<Result<(), String>> = vec![];
+    let mut selection_by_hand = false;
     for _ in 0..3 {
         match super::c04::staged_round(&applied, fee, &mut compiler, &store) {
             Ok(r) => {
@@ -459,6 +461,7 @@ pub fn check_resolver(tape: &[u16], rc: &mut RCase) -> Result<(), Failure> {
                 staged.push(Ok(()));
             }
             Err(e) => {
+                selection_by_hand = e.stage() == "select" && !e.is_panic();
                 staged.push(Err(format!("{}: {}", e.stage(), crate::util::trunc(&e.describe(), 200))));
                 break;
             }
@@ -475,6 +478,13 @@ pub fn check_resolver(tape: &[u16], rc: &mut RCase) -> Result<(), Failure> {
         }
         Ok(Ok(_)) => {
             if let Some(Err(e)) = staged.first() {
+                // Selection breaks ties between candidates by the iteration order of a hash set, so two
+                // runs of the same round may hand a block different UTxOs and leave a later block with or
+                // without a candidate: a selection failure on one side only is not a disagreement.
+                if selection_by_hand {
+                    rc.label("resolver:selection_differs_between_runs");
+                    return Ok(());
+                }
                 return Err(Failure::new(
                     "resolver_succeeds_where_its_first_round_fails_by_hand",
                     format!("resolve_tx returned Ok; the first round replayed through the public stages: {}", e),
